@@ -168,7 +168,54 @@ def _round_trip_case(name, shape, sym_numbers=False, check_bytes=False):
                 rec = spec_record(nums[i], len(ngb[i]), atoms[i], common)
                 c += [bv(out[4 + 9 * i + k]) == (rec[k] & 0xff) for k in range(9)]
         return z3.And(*c)
-    return Case(f'W:unpack(pack(m))==m/{name}', fn, dom, ensures, (), None, (PK, 'pack'), tactic='QF_BV', timeout_ms=120000)
+    def native(model):
+        return replay_round_trip(shape, sym_numbers, model)
+    return Case(f'W:unpack(pack(m))==m/{name}', fn, dom, ensures, (), native, (PK, 'pack'), tactic='QF_BV', timeout_ms=120000)
+
+
+def replay_round_trip(shape, sym_numbers, model):
+    """replay a counter-model: the same stub molecule with the model's concrete values through the de-cythonised pack/unpack in the
+    concrete C runtime (no compiled extension exists in this sandbox)"""
+    from cyx import inject
+    gp, _, _ = inject.load(PK)
+    gu, _, _ = inject.load(UP)
+    n = shape['n']
+    g = model.get
+    dom = []
+    mol, nums, atoms, ngb, bonds = build_shape(shape, dom, sym_numbers)
+
+    def conc(v, name_hint=None):
+        if isinstance(v, SymInt):
+            return z3.simplify(z3.substitute(v.z, *[(z3.BitVec(k, W), z3.BitVecVal(val, W)) for k, val in model.items() if isinstance(val, int) and not isinstance(val, bool)])).as_signed_long() \
+                if not z3.is_bv_value(z3.simplify(v.z)) else z3.simplify(v.z).as_signed_long()
+        if isinstance(v, SymBool):
+            r = z3.simplify(z3.substitute(v.z, *[(z3.Bool(k), z3.BoolVal(val)) for k, val in model.items() if isinstance(val, bool)]))
+            return z3.is_true(r)
+        return v
+    cn = [conc(x) for x in nums]
+    cat = [types.SimpleNamespace(atomic_number=conc(a.atomic_number), _isotope=conc(a._isotope), _stereo=a._stereo,
+                                 _implicit_hydrogens=conc(a._implicit_hydrogens), _charge=conc(a._charge), _is_radical=conc(a._is_radical), x=0.0, y=0.0) for a in atoms]
+    cb = {}
+    for (i, j), b in bonds.items():
+        if (j, i) in cb:
+            cb[(i, j)] = cb[(j, i)]
+        else:
+            cb[(i, j)] = types.SimpleNamespace(_order=conc(b._order), _stereo=b._stereo)
+    cmol = types.SimpleNamespace(_atoms={cn[i]: cat[i] for i in range(n)}, _bonds={cn[i]: {cn[j]: cb[(i, j)] for j in ngb[i]} for i in range(n)},
+                                 _stereo_cis_trans_terminals={**{cn[i]: (cn[i], cn[j]) for i, j, s_ in shape.get('ct', ())},
+                                                              **{cn[j]: (cn[i], cn[j]) for i, j, s_ in shape.get('ct', ())}},
+                                 _cis_trans_count=len(shape.get('ct', ())))
+    try:
+        out = gp['pack'](cmol)
+        u, ct, size = gu['unpack'](out)
+        got = ([(k, a.atomic_number, a._isotope, a._stereo, a._implicit_hydrogens, a._charge, a._is_radical) for k, a in u._atoms.items()],
+               [(k, [(m, b._order) for m, b in v.items()]) for k, v in u._bonds.items()], ct)
+    except Exception as e:
+        return dict(ok=False, got=repr(e), args=dict(numbers=cn))
+    exp = ([(cn[i], a.atomic_number, a._isotope, a._stereo, a._implicit_hydrogens, a._charge, a._is_radical) for i, a in enumerate(cat)],
+           [(cn[i], [(cn[j], cb[(i, j)]._order) for j in ngb[i]]) for i in range(n)], got[2])
+    return dict(ok=got[:2] == exp[:2], got=repr(got[:2])[:600], expected=repr(exp[:2])[:600], bytes=out.hex(),
+                note='replayed on the de-cythonised pack/unpack with concrete values')
 
 
 def _attr_cycle(n, start=0):
